@@ -709,14 +709,14 @@ void File::uncompressedFile2ReadWriteQueue() {
         /* This is a normal eof. No objects ended abruptly. */
         return;
     }
+    if (ohb.objectSize < ohb.calculateHeaderSize())
+        throw Exception("File::uncompressedFile2ReadWriteQueue(): Object size smaller than object header.");
     m_uncompressedFile.seekg(-ohb.calculateHeaderSize(), std::ios_base::cur);
 
     /* create object */
     ObjectHeaderBase * obj = createObject(ohb.objectType);
     if (obj == nullptr) {
         /* in case of unknown objectType */
-        if (ohb.objectSize < ohb.calculateHeaderSize())
-            throw Exception("File::uncompressedFile2ReadWriteQueue(): Object size smaller than object header.");
         m_uncompressedFile.seekg(ohb.objectSize, std::ios_base::cur);
         return;
     }
